@@ -6,6 +6,7 @@ CONSTANTS RY = 2
           NS = 2
           NM = 1
           Pos <- PosDef
+          Half = FALSE
           PropR = 1
           PropC = 1
           TwiddleBug = TRUE
